@@ -3,7 +3,7 @@ CONSTANTS
   MaxBlocks = 2
   MaxTxs = 2
   Sizes = {1, 2}
-  Times = {1, 3}
+  Times = {0, 1, 3}
   Eras = {0, 1}
 SPECIFICATION MSpec
 INVARIANTS AccIsStats TypesOk Emit
